@@ -200,6 +200,35 @@ def check_files(files, backend, nexp, label, viols, ids_expected):
                 viols.append((f"C09:constants-elements", f"{label}: NELEM={ca.get('NELEM')} vs NELEMENTS={nelem}", None))
             if ca.get("NGAS", 0) + ca.get("NICE", 0) != nspec:
                 viols.append((f"C09:constants-gas-ice", f"{label}: NGAS+NICE={ca.get('NGAS')}+{ca.get('NICE')} != {nspec}", None))
+            # the per-phase lists partition ALL_SPECIES in its order, and their lengths are the counts next to them
+            allsp, gas, ice, grn = (list(ca.get(k, [])) for k in ("ALL_SPECIES", "ALL_GAS_SPECIES", "ALL_ICE_SPECIES", "ALL_GRAIN_SPECIES"))
+            if [x for x in allsp if x in set(gas)] != gas or [x for x in allsp if x in set(ice)] != ice or sorted(gas + ice) != sorted(allsp) or (len(gas), len(ice), len(grn)) != (ca.get("NGAS"), ca.get("NICE"), ca.get("NGRAIN")):
+                viols.append((f"C09:constants-phase-lists", f"{label}: ALL_GAS_SPECIES {gas} / ALL_ICE_SPECIES {ice} / ALL_GRAIN_SPECIES {grn} (NGAS, NICE, NGRAIN = {ca.get('NGAS')}, {ca.get('NICE')}, {ca.get('NGRAIN')}) do not partition ALL_SPECIES {allsp}", None))
+            # the per-element table against the C helper that sums the same counts (GetElementAbund)
+            tab = ca.get("TABLE_SPECIES_GROUPED_BY_ELEMENTS")
+            if isinstance(tab, dict) and "src/naunet_physics.cpp" in files and vals is not None and len(set(names)) == len(names):
+                from ..ctext.stmts import read_macros
+                from .c04 import read_element_abund
+
+                mac = read_macros(files["include/naunet_macros.h"])
+                ea = read_element_abund(files, mac) or {}
+                slot_name = {}
+                for (n_, v_), nm_ in zip(sorted(spec, key=lambda t: int(t[1])), allsp):
+                    slot_name[int(v_)] = nm_
+                for en, ev in elem:
+                    ename = en[len("IDX_ELEM_"):]
+                    poly = ea.get(int(ev), {})
+                    want_t = {}
+                    for mono, coef in poly.items():
+                        syms = [sy for sy, _ in mono]
+                        if len(syms) == 1 and syms[0].startswith("y:"):
+                            want_t[slot_name.get(int(syms[0][2:]), syms[0])] = int(coef) if float(coef).is_integer() else float(coef)
+                    got_t = tab.get(ename)
+                    if got_t is None:
+                        continue  # the grain pseudo-element is keyed by its species name (GRAIN0) on the python side: not judged
+                    if got_t != want_t:
+                        viols.append((f"C09:constants-element-table", f"{label}: TABLE_SPECIES_GROUPED_BY_ELEMENTS[{ename!r}] = {got_t}, the C helper GetElementAbund sums {want_t} for that element", None))
+                        break
     return spec, elem, nspec
 
 
@@ -347,7 +376,7 @@ def run_case(arg):
             continue
         if net is None:
             continue
-        tm = ["include/naunet_macros.h.j2", "python/pynaunet_model/constant_indexes.py.j2", "python/pynaunet_model/constants.py.j2"]
+        tm = ["include/naunet_macros.h.j2", "python/pynaunet_model/constant_indexes.py.j2", "python/pynaunet_model/constants.py.j2", "src/naunet_physics.cpp.j2"]
         base = None
         for b in oc.ALL_BACKENDS:
             try:
